@@ -10,7 +10,7 @@ PROPS["C11"] = dict(
     technique="bounded-exhaustive enumeration of the real code against an independent reference (explicit-state, no sampling)",
     level_text=("every input of the property's small domains (all <=3-byte strings, all 4-character groups) is enumerated "
                 "completely and compared with an independent RFC 4648 reference, under ASan/UBSan for the buffer clause; "
-                "this is the property's own quantifier, so exhaustive enumeration is the right level"),
+                "this is the property's own quantifier, so exhaustive enumeration is the right level; an HS256 token through the public API whose signature text is followed by 1..1024 bytes of nine kinds"),
     level_note="trusts ref_b64 (60 lines, /verif/engine/ref_b64.h) and ASan/UBSan instrumentation of the library TUs",
     rule=("complete enumeration: encode every byte string of length 0-3 and lengths 4-6 over 12 byte classes; "
           "decode every string of length 1-3 over bytes 1..255, every 4-character group over the tier's alphabet "
@@ -37,7 +37,7 @@ PROPS["C02"] = dict(
     technique="exhaustive enumeration of the finite configuration x key x header x route x signature matrix on the real code against a reference decision function",
     level_text=("the property's quantifier is a finite matrix; every cell (configured alg x key x key alg attribute x header alg x "
                 "route x signature kind, checker and builder side, both providers) is executed on the real library and compared "
-                "with ref_policy; acceptance is judged one-directionally (accepted => permitted); header names a number parser would accept (HS 256, HS+256, HS0256 ...) and key's-own-algorithm signatures under header names that are no algorithm"),
+                "with ref_policy; acceptance is judged one-directionally (accepted => permitted); header names a number parser would accept (HS 256, HS+256, HS0256 ...) and key's-own-algorithm signatures under header names that are no algorithm; known names followed by 256 / 512 more characters"),
     level_note="trusts ref_policy/ref_crypto in the harness (libcrypto primitives on the harness's own PEM keys) and ASan for the crash clause",
     rule=("cells = configured alg (16) x key (absent + pool) x JWK alg attribute x header alg text (33 incl. case variants, prefix, "
           "missing, non-string) x route (setkey, callback key+alg, callback key only, callback alg only, setkey+no-op callback) x "
@@ -115,7 +115,7 @@ PROPS["C19"] = dict(
                 "signature kinds; the verdict must equal that of the same checker without a callback; vetoing programs (return 1, -1, "
                 "2, 256, INT_MIN) of length <= 2 (thorough <= 3) over 20 operations -- the 17 plus three edits of config->key/alg, "
                 "admissible ones included -- must always reject; accepting programs that first select the key the baseline has are "
-                "compared with the keyed baseline; payloads include null and wrongly typed exp/nbf/iss/sub/aud"),
+                "compared with the keyed baseline; payloads include null and wrongly typed exp/nbf/iss/sub/aud; callback operations the library refuses (NULL value, empty name, malformed JSON)"),
     level_note="differential oracle with no expected values: program vs no callback on identically configured fresh checkers",
     rule=("states = callback programs; transitions = (program, configuration, token) cells each executing two real verifications; "
           "a case is non-trivial when the callback actually ran (token parsed); distinct by descriptor"),
@@ -135,7 +135,7 @@ PROPS["C15"] = dict(
                 "builder claims and the jwt_t handed to builder and checker callbacks; each history is replayed on a fresh real "
                 "object and every call's return code, value.error, returned value and the resulting whole-object dump are compared "
                 "with ref_map; every second case leaves a stale error code in the jwt_value_t before the call (a caller reusing "
-                "one value); states are merged on the canonical dump, which is all the API can read or write; JSON texts with null-valued members"),
+                "one value); states are merged on the canonical dump, which is all the API can read or write; JSON texts with null-valued members; copy operations (get a member, set another to the value just read, through one jwt_value_t)"),
     level_note="ref_map = model_apply() in harness/seq.c (90 lines on jansson containers); merging on the dump is future-equivalent because the map is the only state these calls touch",
     rule=("states = distinct canonical maps reached per receiver; transitions = state x operation (all executed on the real object by "
           "replaying the state's shortest history); evaluations = individual API calls compared with the model; non-trivial = the "
@@ -273,7 +273,7 @@ PROPS["C06"] = dict(
                 "is run twice per provider: under ASan/UBSan, and with a guard-page allocator installed through jwt_set_alloc so that "
                 "over-reads by uninstrumented provider code fault as well.  Every call must return (watchdog), without sanitizer "
                 "report or leak, and may return 0 only if ref_token finds two dots, a header that decodes to a JSON object with a "
-                "known string alg, and a payload that decodes to JSON"),
+                "known string alg, and a payload that decodes to JSON; alg names followed by 256 / 512 more characters"),
     level_note="bounded-exhaustive, not 'all byte strings up to tens of kilobytes': random and coverage-guided generation are a different family and are not used",
     rule=("evaluations = jwt_checker_verify calls judged; non-trivial = calls that returned 0 and passed the well-formedness "
           "reference (counter); cases group the inputs by family"),
@@ -295,7 +295,7 @@ PROPS["C01"] = dict(
                 "and payload, every splice with the signature of every other pool token, every signature made with another "
                 "algorithm, and a list of adversarial assemblies (attacker-keyed HMACs, ECDSA (0,0)/(n,n)/(r,n-s)/DER, RSA s in "
                 "{0,1,n-1,n,s+n}, EdDSA zero/identity) is verified; acceptance is permitted only if ref_crypto finds the signature "
-                "valid under the configured key and the header names the pinned algorithm; junk octets between or around a zero octet and the signature (00||junk||sig, junk||sig, sig||junk||00)"),
+                "valid under the configured key and the header names the pinned algorithm; junk octets between or around a zero octet and the signature (00||junk||sig, junk||sig, sig||junk||00); signatures extended by 256, 512 and 768 characters; high-bit bytes in place of signature characters"),
     level_note="one-directional (accepted => valid at the integer level): malleability-only variants are not flagged, by design (DESIGN 3 C01)",
     rule=("evaluations = verifications judged; cases = (pair, base token source, mutation class chunk); non-trivial = cases that ran a "
           "mutation class against a base token that itself verifies; accepted mutants are each confirmed by the reference (counter)"),
